@@ -15,7 +15,10 @@ use verif_harness::txops::*;
 use verif_harness::*;
 
 #[derive(Clone, Copy, Debug, PartialEq)]
-enum Kind { Commit, Rollback, DropTx, Ro }
+enum Kind { Commit, Rollback, DropTx, Ro,
+    /// a single-operation helper of `SingleWriterTxKeyspace` (insert / remove / take / fetch_update / update_fetch):
+    /// documented to run as a one-operation write transaction
+    Helper }
 #[derive(Clone, Debug)]
 struct Job { kind: Kind, ops: Vec<Op> }
 
@@ -61,7 +64,18 @@ fn agent_body(id: usize, jobs: Vec<Job>, db: SingleWriterTxDatabase, kss: Vec<Si
     AGENT.with(|a| a.set(Some(id)));
     for job in jobs {
         park(id, "job.begin");
-        if job.kind == Kind::Ro {
+        if job.kind == Kind::Helper {
+            let e = |e: fjall::Error| format!("err:{e:?}");
+            let out = match &job.ops[0] {
+                Op::Insert(k, key, v) => kss[*k].insert(key.clone(), v.clone()).map(|()| "unit".to_string()).unwrap_or_else(e),
+                Op::Remove(k, key) => kss[*k].remove(key.clone()).map(|()| "unit".to_string()).unwrap_or_else(e),
+                Op::Take(k, key) => kss[*k].take(key.clone()).map(val).unwrap_or_else(e),
+                Op::FetchUpdate(k, key, f) => kss[*k].fetch_update(key.clone(), |o| f.apply(o.map(|x| &**x)).map(Into::into)).map(val).unwrap_or_else(e),
+                Op::UpdateFetch(k, key, f) => kss[*k].update_fetch(key.clone(), |o| f.apply(o.map(|x| &**x)).map(Into::into)).map(val).unwrap_or_else(e),
+                _ => unreachable!(),
+            };
+            push_out(id, out);
+        } else if job.kind == Kind::Ro {
             let snap = db.read_tx();
             for op in &job.ops {
                 park(id, "op.begin");
@@ -97,8 +111,12 @@ fn gen_jobs(r: &mut Rng, nks: usize, thorough: bool) -> Vec<Vec<Job>> {
     let hot = gen_key(r);
     (0..nth).map(|_| {
         (0..r.range(1, 3)).map(|_| {
-            let kind = match r.below(10) { 0 => Kind::Rollback, 1 => Kind::DropTx, 2 | 3 => Kind::Ro, _ => Kind::Commit };
-            let ops = if kind == Kind::Ro {
+            let kind = match r.below(12) { 0 => Kind::Rollback, 1 => Kind::DropTx, 2 | 3 => Kind::Ro, 4 | 5 | 6 => Kind::Helper, _ => Kind::Commit };
+            let ops = if kind == Kind::Helper {
+                let k = r.range(0, nks - 1);
+                let key = if r.chance(1, 2) { hot.clone() } else { gen_key(r) };
+                vec![match r.below(6) { 0 | 1 => Op::Insert(k, key, gen_val(r)), 2 => Op::Remove(k, key), 3 => Op::Take(k, key), 4 => Op::FetchUpdate(k, key, gen_f(r)), _ => Op::UpdateFetch(k, key, F::App(vec![b'+'])) }]
+            } else if kind == Kind::Ro {
                 (0..r.range(0, 4)).map(|_| if r.chance(1, 2) { Op::Get(r.range(0, nks - 1), hot.clone()) } else { gen_op(r, nks, 0) }).collect()
             } else if r.chance(1, 3) {
                 // a counter-style read-modify-write on the hot key: a lost update shows in the final value
@@ -111,7 +129,7 @@ fn gen_jobs(r: &mut Rng, nks: usize, thorough: bool) -> Vec<Vec<Job>> {
     }).collect()
 }
 
-fn kind_word(k: Kind) -> &'static str { match k { Kind::Commit => "commit", Kind::Ro => "ro", _ => "rollback" } }
+fn kind_word(k: Kind) -> &'static str { match k { Kind::Commit | Kind::Helper => "commit", Kind::Ro => "ro", _ => "rollback" } }
 
 fn run_case(seed: u64, lean: &mut Lean, hist: &mut BTreeMap<String, u64>, samples: &mut Vec<J>, thorough: bool) -> (Vec<Failure>, bool, u64) {
     let mut r = Rng::new(seed);
@@ -230,6 +248,22 @@ fn run_case(seed: u64, lean: &mut Lean, hist: &mut BTreeMap<String, u64>, sample
                     if a != "blocked" && !no_model() { fails.push(Failure { kind: "model-vs-impl", detail: format!("write_tx while the lock is held: model says `{a}`") }); }
                 }
             }
+            "swtx.locked" if job.kind == Kind::Helper => {
+                // the helper opens its snapshot, runs its one operation and commits without a stop in between
+                let mut m = refm.clone();
+                let exp = ref_op(&mut m, &job.ops[0]);
+                release(id);
+                let p = wait_parked(id, t);
+                let (_, a1) = ask!("sw.step {id}");
+                let (_, a2) = ask!("sw.step {id}");
+                let (_, a3) = ask!("sw.step {id}");
+                trace.push(format!("t{id}:helper {}", job.ops[0].spec(&ids)));
+                *hist.entry(format!("helper-{}", job.ops[0].name())).or_insert(0) += 1;
+                if p != Some("swtx.committed") { fails.push(Failure { kind: "harness", detail: format!("helper of agent {id} after its commit at {p:?}") }); }
+                refm = m; commits += 1; committers.insert(id);
+                tx_outs[id] = vec![exp, a2.strip_prefix("out ").unwrap_or(&a2).to_string()];
+                if (a1 != "opened" || !a2.starts_with("out ") || !a3.starts_with("committed")) && !no_model() { fails.push(Failure { kind: "model-vs-impl", detail: format!("helper operation: model says `{a1}` / `{a2}` / `{a3}`") }); }
+            }
             "swtx.locked" => {
                 release(id);
                 let p = wait_parked(id, t);
@@ -289,7 +323,12 @@ fn run_case(seed: u64, lean: &mut Lean, hist: &mut BTreeMap<String, u64>, sample
                 if p.is_none() { fails.push(Failure { kind: "harness", detail: format!("agent {id} stuck after commit") }); }
                 let real = { let g = ctl().m.lock().unwrap(); g[id].out.get(out_ix[id]).cloned().unwrap_or_else(|| "missing".into()) };
                 out_ix[id] += 1;
-                if real != "commit:ok" { fails.push(Failure { kind: "impl-vs-oracle", detail: format!("commit of thread {id} returned {real}") }); }
+                if job.kind == Kind::Helper {
+                    // tx_outs = [serial-replay expectation, model output]
+                    trace.push(format!("t{id}:helper-result {real}"));
+                    if real != tx_outs[id][0] { fails.push(Failure { kind: "impl-vs-oracle", detail: format!("helper operation {} of thread {id} returned {real}; executed alone at its commit point it returns {}; trace: {}", job.ops[0].spec(&ids), tx_outs[id][0], trace.join(" | ")) }); }
+                    if real != tx_outs[id][1] && !no_model() { fails.push(Failure { kind: "model-vs-impl", detail: format!("helper operation {}: real `{real}` model `{}`", job.ops[0].spec(&ids), tx_outs[id][1]) }); }
+                } else if real != "commit:ok" { fails.push(Failure { kind: "impl-vs-oracle", detail: format!("commit of thread {id} returned {real}") }); }
                 let (_, a) = ask!("sw.step {id}");
                 trace.push(format!("t{id}:guard-dropped"));
                 job_ix[id] += 1; tx_outs[id].clear();
